@@ -127,7 +127,19 @@ pub fn gen_scenario(rng: &mut Rng, thorough: bool) -> Scenario {
             target: None, sample_size: 1 + rng.below(3) as usize, spec_yaml: spec.to_string(), guess: None,
             script_seed: rng.next(), term_round: None, fail_permille: 0, rej_permille: *rng.pick(&[0, 50, 200]),
             nonfinite_permille: 0, burst_permille: *rng.pick(&[0, 300]), ignore_abort_permille: *rng.pick(&[0, 1000]),
-            pool: rng.below(5) as u8, max_rounds: rounds,
+            pool: rng.below(7) as u8, max_rounds: rounds,
+        };
+    }
+    if rng.chance(1, 14) {
+        // sampling with a target: the best-seen objective is a MEAN that crosses the target although the last
+        // sample alone may not; needs a population of 20 before re-evaluation starts
+        let ss = 2 + rng.below(3) as usize;
+        let (spec, _) = SPECS[rng.below(SPECS.len() as u64) as usize];
+        return Scenario {
+            nc: 1 + rng.below(3) as usize, max_eval: None, target: Some(*rng.pick(&[-3.0, -2.0, -4.5])), sample_size: ss,
+            spec_yaml: spec.to_string(), guess: None, script_seed: rng.next(), term_round: None, fail_permille: 0,
+            rej_permille: *rng.pick(&[0, 50]), nonfinite_permille: 0, burst_permille: *rng.pick(&[0, 300]),
+            ignore_abort_permille: 0, pool: 4, max_rounds: if thorough { 1500 } else { 500 },
         };
     }
     let nc = 1 + rng.below(8) as usize;
@@ -139,10 +151,10 @@ pub fn gen_scenario(rng: &mut Rng, thorough: bool) -> Scenario {
         3..=5 => Some(rng.below(12) as usize),
         _ => Some(rng.below(nmax) as usize),
     };
-    let pool = rng.below(5) as u8;
+    let pool = rng.below(7) as u8;
     let sample_size = match rng.below(10) { 0..=4 => 1, 5..=6 => 2, 7..=8 => 3, _ => 4 };
     let target = if rng.chance(1, 3) {
-        Some(match pool { 0 | 4 => rng.range(-6, 6) as f64, 1 => (rng.range(-3, 3) as f64) * 1e299, 2 => -(rng.below(60) as f64), _ => rng.below(60) as f64 })
+        Some(match pool { 0 | 4 | 5 | 6 => rng.range(-6, 6) as f64, 1 => (rng.range(-3, 3) as f64) * 1e299, 2 => -(rng.below(60) as f64), _ => rng.below(60) as f64 })
     } else { None };
     let (spec, guesses) = SPECS[rng.below(SPECS.len() as u64) as usize];
     let guess = if rng.chance(1, 4) { Some(serde_json::from_str(*rng.pick(guesses)).unwrap()) } else { None };
@@ -196,6 +208,8 @@ fn gen_value(rng: &mut Rng, pool: u8, counter: u64) -> f64 {
         1 => { let m = rng.range(-1000, 1000) as f64 / 100.0; let e = *rng.pick(&[-300.0, -10.0, 0.0, 10.0, 299.0]); m * 10f64.powf(e) }
         2 => -(counter as f64),
         3 => counter as f64,
+        5 => 1.0,                                                       // plateau: every result ties
+        6 => if rng.chance(9, 10) { 1.0 } else { 2.0 + counter as f64 }, // plateau with occasional worse results
         _ => rng.range(-50, 50) as f64 / 8.0,
     }
 }
